@@ -29,7 +29,7 @@ those same header parts of them, but nothing else of them; walrus targets from n
 If `r` is itself a comprehension the walk additionally yields its walrus targets (`ownedWalk`; documented quirk of
 `walk`).  Partial: the unconditional statement is false, see `scopeWalk_false_lambdaWalrus`. -/
 theorem scopeWalk_eq_spec_partial (r : Node) (hg : goodRoot r = true) : walkRoot false r = ownedWalk r := by
-  rw [walkRoot_eq false r hg]
+  rw [(walkRoot_eq false r hg).1]
   exact List.filter_eq_self.mpr (fun _ _ => rfl)
 
 /-- For every scope that is not a comprehension the documented walk set is exactly the scope (`ownedWalk = owned`). -/
@@ -42,8 +42,29 @@ theorem ownedWalk_eq_owned (r : Node) (hc : isComp r = false) : ownedWalk r = ow
 the filter, whether or not the first iterable of a nested comprehension (or anything above the names in it) passes. -/
 theorem scopeWalk_filtered (r : Node) (hg : goodRoot r = true) :
     walkRoot true r = (ownedWalk r).filter (fun n => n.kind.isSym) := by
-  have h := walkRoot_eq true r hg
+  have h := (walkRoot_eq true r hg).1
   simpa using h
+
+/-- **Direction independence.**  For every tree, scope and `all` filter the backward scope walk (`back=True`) yields the
+same nodes as the forward one (as a permutation: parents before children, siblings reversed).  In the model this holds by
+construction - one table `mStep` decides for both directions which children of a nested def / class / lambda /
+comprehension are pushed - so it is a statement about the code exactly as far as the correspondence ties BOTH directions
+of `stack_funcdef`, `stack_ClassDef`, `stack_Lambda`, `stack_arguments`, `stack_comprehension`, `create` and `walk_Comp` to
+that one table (it does, on every run). -/
+theorem scopeWalk_back_perm (flt : Bool) (r : Node) : (walkRootB flt r).Perm (walkRoot flt r) :=
+  travLB_perm (mStep flt) r.kids (mInit r.kind)
+
+/-- and under `goodRoot` the backward walk is the backward traversal of the spec's scope -/
+theorem scopeWalk_back_eq_spec (r : Node) (hg : goodRoot r = true) :
+    (walkRootB false r).Perm (ownedWalk r) :=
+  (scopeWalk_back_perm false r).trans (by rw [scopeWalk_eq_spec_partial r hg])
+
+/-- **Replacement during the walk.**  If the consumer replaces nodes it is handed (`old i k` = the class node `i` had when
+it was popped), the walk of the final tree in which the rule for a node's children is the rule of the class the node has
+WHEN ITS CHILDREN ARE PUSHED (after the yield) is exactly the scope walk of the final tree: with `all=True` the decision to
+yield a node does not depend on its class, everything else is read after the yield. -/
+theorem scopeWalk_replace (old : Nat → Kind → Kind) (r : Node) : walkRootO old false r = walkRoot false r :=
+  travLO_eq old (mStep false) (fun s k k' ro => mStep_emit s k k' ro) r.kids (mInit r.kind)
 
 /-- **Every node belongs to exactly one scope**: the global labelling `scopeOf` lists every node below the root exactly
 once, in preorder, each with one scope id.  (That the per-scope view `owned r` used by the other theorems is the fibre
@@ -106,7 +127,7 @@ def tFirstIter : Node :=
       .mk 2 .arguments .args [] [.mk 3 .arg .argr [1] []],
       .mk 4 .other .body [] [nm 5 .nameStore 2,
         .mk 6 .comp .plain [] [nm 7 .nameLoad 3 .elt,
-          .mk 8 .gen .gen [] [nm 9 .nameStore 3 .target,
+          .mk 8 .gen .gen0 [] [nm 9 .nameStore 3 .target,
             .mk 10 .other .iter [] [nm 11 .nameLoad 4, nm 12 .nameLoad 1]]]]]]
 
 def tFirstIter_f : Node := match tFirstIter with | .mk _ _ _ _ (f :: _) => f | n => n
@@ -125,7 +146,7 @@ def tLamWalrus : Node :=
         .mk 4 .comp .plain [] [
           .mk 5 .lambda .elt [] [.mk 6 .arguments .args [] [],
             .mk 7 .namedexpr .body [] [nm 8 .nameStore 1 .wtarget, oth 9 []]],
-          .mk 10 .gen .gen [] [nm 11 .nameStore 2 .target, nm 12 .nameLoad 3 .iter]]]]]
+          .mk 10 .gen .gen0 [] [nm 11 .nameStore 2 .target, nm 12 .nameLoad 3 .iter]]]]]
 
 def tLamWalrus_f : Node := match tLamWalrus with | .mk _ _ _ _ (f :: _) => f | n => n
 
@@ -163,8 +184,8 @@ def tBig : Node :=
         .mk 26 .comp .plain [] [
           .mk 27 .comp .elt [] [
             .mk 28 .namedexpr .elt [] [nm 29 .nameStore 15 .wtarget, nm 30 .nameLoad 16],
-            .mk 31 .gen .gen [] [nm 32 .nameStore 16 .target, nm 33 .nameLoad 17 .iter]],
-          .mk 34 .gen .gen [] [nm 35 .nameStore 17 .target, nm 36 .nameLoad 2 .iter]]]]]
+            .mk 31 .gen .gen0 [] [nm 32 .nameStore 16 .target, nm 33 .nameLoad 17 .iter]],
+          .mk 34 .gen .gen0 [] [nm 35 .nameStore 17 .target, nm 36 .nameLoad 2 .iter]]]]]
 
 def tBig_f : Node := match tBig with | .mk _ _ _ _ (f :: _) => f | n => n
 
@@ -174,6 +195,10 @@ example : goodRoot tBig_f = true ∧ isComp tBig_f = false := by decide
 keyword value, the lambda's default, the outer comprehension's first iterable and the walrus target two comprehensions
 down are -/
 example : (walkRoot false tBig_f).map Node.id = [3, 4, 7, 10, 11, 12, 13, 14, 18, 19, 20, 23, 25, 26, 29, 36] := by decide
+example : (walkRootB false tBig_f).map Node.id = [25, 26, 36, 29, 18, 20, 23, 19, 11, 13, 14, 12, 10, 3, 7, 4] := by decide
+/-- replacement: node 19 (`h`) was a comprehension when popped, node 26 a plain call: same walk -/
+example : (walkRootO (fun i k => if i = 26 then .other else if i = 19 then .comp else k) false tBig_f).map Node.id =
+    (walkRoot false tBig_f).map Node.id := by decide
 example : symbols tBig_f =
     { load := [10, 11, 2], store := [2, 5, 9, 13, 15], del := [], glob := [8], nonl := [], loc := [2, 5, 9, 13, 15],
       free := [10, 11] } := by decide
